@@ -286,7 +286,7 @@ int sqfs_data_reader_get_fragment(sqfs_data_reader_t *data,
 	if (err)
 		return err;
 
-	if ((sqfs_u64)frag_off + frag_sz > data->block_size)
+	if ((sqfs_u64)frag_off + frag_sz > data->frag_blk_size)
 		return SQFS_ERROR_OUT_OF_BOUNDS;
 
 	*out = alloc_array(1, frag_sz);
